@@ -151,7 +151,7 @@ func (this *rss14Reader) decodePair(row *gozxing.BitArray, right bool, rowNumber
 		return nil // ignore NotFoundException
 	}
 
-	if resultPointCallback, ok := hints[gozxing.DecodeHintType_NEED_RESULT_POINT_CALLBACK].(gozxing.ResultPointCallback); ok {
+	if resultPointCallback, ok := hints[gozxing.DecodeHintType_NEED_RESULT_POINT_CALLBACK].(gozxing.ResultPointCallback); ok && resultPointCallback != nil {
 		startEnd = pattern.GetStartEnd()
 		center := float64(startEnd[0]+startEnd[1]-1) / 2.0
 		if right {
